@@ -23,7 +23,7 @@ model returns the interpretation of the same items), the C06 lemmas at the value
 
 PROPERTY THEOREMS: C01_e2e_actual, C01_e2e_roundtrip_partial, C01_e2e_reencode_partial, C01_e2e_retained,
 C01_e2e_dec_output_normal, C01_e2e_reencode, C01_e2e_reencode_normal, C01_e2e_full_fails_arr, C01_e2e_full_fails_zero,
-C01_e2e_full_fails_fffd, C01_e2e_reencode_fails_undersized, C01_e2e_reencode_fails_pieces, C01_e2e_reencode_fails_f64dev,
+C01_e2e_full_fails_fffd, C01_e2e_known_array_is_array, C01_e2e_reencode_undersized_roundtrip, C01_e2e_reencode_fails_pieces, C01_e2e_reencode_fails_f64dev,
 C01_e2e_reencode_boolarr_roundtrip, C01_e2e_value_independent_of_byte_order, C01_e2e_roundtrip_strict_partial,
 C01_e2e_full_fails_emptystr, C01_e2e_norm_bool_witness, C01_e2e_actual_exact, C01_e2e_roundtrip_exact_partial
 
@@ -32,9 +32,12 @@ full statement `C01_e2e_roundtrip_full` is false on them (`C01_e2e_full_fails_*`
 exactly these three classes, `C01_e2e_actual` says what the code returns on ALL accepted inputs, the classes included.
 The last sentence of the property (re-encoding what a decoder returned) is `C01_e2e_reencode`, a theorem about the output of
 `decodeChain` on ARBITRARY bytes (lemmas: FitProps/EndToEndBack*Lemmas.lean: the shape of `UnmarshalValue`'s answers, an
-invariant of the decoder-API model over all byte streams, `C10_validate_filter` on decoded messages); it excludes three
-classes of decoder output — KF-C01-undersized, KF-C01-strpieces, KF-C01-f64dev — on which `C01_e2e_reencode_full` is false
-(`C01_e2e_reencode_fails_*`); in the first two only the scalar/array shape of a value differs (`C01_e2e_reencode_normal`).
+invariant of the decoder-API model over all byte streams, `C10_validate_filter` on decoded messages); it excludes two
+classes of decoder output — KF-C01-strpieces, KF-C01-f64dev — on which `C01_e2e_reencode_full` is false
+(`C01_e2e_reencode_fails_*`); in the first only the scalar/array shape of a value differs (`C01_e2e_reencode_normal`).
+A third class, KF-C01-undersized (an array field defined with fewer bytes than one element came back as a scalar), was
+repaired in /repo (`decodeFields` returns the one-element array): its hypothesis is gone from `C01_e2e_reencode` /
+`C01_e2e_dec_output_normal`, and the former witness round-trips (`C01_e2e_reencode_undersized_roundtrip`).
 -/
 namespace Fit.C01
 open Fit.E2E Fit.Wire Fit.Msg Fit.Value
@@ -264,10 +267,11 @@ knows it and knows the three key members of `field_description` (the standard fa
 sequences, what its validator retained of each (`C01_e2e_retained`) (i) meets the typing assumptions of the end-to-end
 theorems (`inDomain`: nothing is assumed about decoder output any more), (ii) lies outside the three finding classes of the
 forward direction (`noKF`), (iii) is in wire-normal form for the decoder's factory (`seqNormal`: every value is its own normal
-form under the flags it will be read with) — (iii) outside two explicit classes of decoder output: `kfUndersized` (a field
-the factory knows as an array, written with fewer bytes than one element: returned as a scalar) and `kfPieces` (a string
+form under the flags it will be read with) — (iii) outside one explicit class of decoder output: `kfPieces` (a string
 field without profile entry / a developer string field whose bytes hold ≥ 2 non-empty segments of which < 2 survive the
-UTF-8 cleaning: returned as an array of < 2 strings). -/
+UTF-8 cleaning: returned as an array of < 2 strings). (Until the repair of KF-C01-undersized a second class was excluded:
+a field the factory knows as an array, written with fewer bytes than one element, was returned as a scalar; it is returned
+as the array of that one element now, which is its own normal form.) -/
 theorem C01_e2e_dec_output_normal (c : Cfg) (o : Fit.DecApi.Opts) (input : List Nat) (fits : List Fit.DecApi.Fit)
     (e : Option Fit.DecApi.Out) (kepts : List (List Message)) (bytes : List Nat)
     (hdec : decodeChain o input = (fits, e)) (henc : encodeChain c (backFiles fits) 0 = (kepts, bytes, none))
@@ -276,7 +280,7 @@ theorem C01_e2e_dec_output_normal (c : Cfg) (o : Fit.DecApi.Opts) (input : List 
     kepts = fits.map (fun f => retained c.vo.omitInvalid {} f.msgs) ∧
     ∀ f ∈ fits, inDomain o.fac (retained c.vo.omitInvalid {} f.msgs) = true ∧
       noKF o.fac (retained c.vo.omitInvalid {} f.msgs) = true ∧
-      (kfUndersized f.msgs = false → kfPieces f.msgs = false →
+      (kfPieces f.msgs = false →
         seqNormal o.fac c.w.arch {} (retained c.vo.omitInvalid {} f.msgs) = true) := by
   have hret := C01_e2e_retained c fits kepts bytes henc hR
   refine ⟨hret, ?_⟩
@@ -304,9 +308,19 @@ theorem C01_e2e_dec_output_normal (c : Cfg) (o : Fit.DecApi.Opts) (input : List 
   refine ⟨by rw [inDomain_eq, hfac, d1]; rfl, ?_, d5⟩
   simp only [noKF, kfZero, kfArr, kfFFFD, d2, d3, d4, Bool.not_false, Bool.and_self]
 
+/-- **THE DECODER RETURNS THE ARRAY SHAPE ITS FACTORY PROMISES** (what the repair of KF-C01-undersized established). For
+ARBITRARY input bytes (component expansion off, no listeners, a factory that reads field 253 as a plain uint32 where it knows
+it): in every message of every sequence the `Next` / `Decode` loop returns, a field the factory knows as an ARRAY field holds
+an array value — also when its definition gave it fewer bytes than one element of its base type (before the repair:
+the scalar `convertBytesToValue` assembled). The former class `kfUndersized` (`known && array && !isSlice value`) is empty. -/
+theorem C01_e2e_known_array_is_array (o : Fit.DecApi.Opts) (input : List Nat) (hb : ∀ b ∈ input, b < 256) (ho : PlainOpts o)
+    (hfac : facOKB o.fac = true) :
+    ∀ f ∈ (decodeChain o input).1, ∀ m ∈ f.msgs, ∀ d ∈ m.fields, d.known = true → d.array = true → isSlice d.value = true :=
+  fun f hf m hm d hd => ((decodeChain_good o input hb ho hfac f hf m hm).2.1 d hd).shape
+
 /-- **RE-ENCODING DECODER OUTPUT: THE LAST SENTENCE OF THE PROPERTY.** For ARBITRARY input bytes: whenever the encoder
 (any option combination, real validator model) accepts the sequences the decoder returned for them (`hdec`, `henc`), then —
-outside the three classes of decoder output named in the hypotheses `hR` (`kfF64Dev`), `hN` (`kfUndersized`, `kfPieces`),
+outside the two classes of decoder output named in the hypotheses `hR` (`kfF64Dev`), `hN` (`kfPieces`),
 each an open finding with a kernel-evaluated witness below — (1) what validation retained is the decoded messages as they
 are minus their invalid-valued fields (`retained`), and (2) decoding the written bytes again returns, without error, one
 sequence per sequence whose messages are THOSE retained messages: same numbers and order, every field and developer field
@@ -324,7 +338,7 @@ theorem C01_e2e_reencode (c : Cfg) (o : Fit.DecApi.Opts) (input : List Nat) (fit
     (hc : CfgOK c (backFiles fits)) (hb : ∀ b ∈ input, b < 256) (ho : PlainOpts o) (hfac : facOKB o.fac = true)
     (hkeys : keysKnown o.fac = true) (hsmall : bytes.length < 4294967296)
     (hR : ∀ f ∈ fits, kfF64Dev c.vo {} f.msgs = false)
-    (hN : ∀ f ∈ fits, kfUndersized f.msgs = false ∧ kfPieces f.msgs = false) :
+    (hN : ∀ f ∈ fits, kfPieces f.msgs = false) :
     kepts = fits.map (fun f => retained c.vo.omitInvalid {} f.msgs) ∧
     ∃ seqs, decodeValues o bytes = (seqs, none) ∧
       AllMatch (fun kept ns => seqMatches idValue false o.fac c.w.arch {} kept ns = true) kepts seqs := by
@@ -343,13 +357,13 @@ theorem C01_e2e_reencode (c : Cfg) (o : Fit.DecApi.Opts) (input : List Nat) (fit
   exact C01_e2e_reencode_partial c o (backFiles fits) kepts bytes henc hne' hc ho
     (fun kept hkm => by obtain ⟨f, hf, rfl⟩ := hk kept hkm; exact (hall f hf).1) hsmall
     (fun kept hkm => by obtain ⟨f, hf, rfl⟩ := hk kept hkm; exact (hall f hf).2.1)
-    (fun kept hkm => by obtain ⟨f, hf, rfl⟩ := hk kept hkm; exact (hall f hf).2.2 (hN f hf).1 (hN f hf).2)
+    (fun kept hkm => by obtain ⟨f, hf, rfl⟩ := hk kept hkm; exact (hall f hf).2.2 (hN f hf))
 
-/-- **… and in the two shape classes nothing is lost.** Without the hypothesis `hN`: also when a decoded field lies in
-`kfUndersized` / `kfPieces`, decoding the written bytes again returns the NORMAL FORM of the retained messages
-(`normalValue`): the same numbers / strings in the same order, a one-element array where the decoder first returned the
-scalar, the scalar string where it first returned a one-element string array. What differs from the first decoding in those
-classes is the shape of the value (scalar / array), never its content. -/
+/-- **… and in the shape class nothing is lost.** Without the hypothesis `hN`: also when a decoded field lies in
+`kfPieces`, decoding the written bytes again returns the NORMAL FORM of the retained messages
+(`normalValue`): the same numbers / strings in the same order, the scalar string where it first returned a one-element
+string array. What differs from the first decoding in that class is the shape of the value (scalar / array), never its
+content. -/
 theorem C01_e2e_reencode_normal (c : Cfg) (o : Fit.DecApi.Opts) (input : List Nat) (fits : List Fit.DecApi.Fit)
     (e : Option Fit.DecApi.Out) (kepts : List (List Message)) (bytes : List Nat)
     (hdec : decodeChain o input = (fits, e)) (hne : fits ≠ [])
@@ -460,7 +474,8 @@ theorem C01_e2e_full_fails_fffd : ¬ C01_e2e_roundtrip_full :=
     (by decide +kernel) (by decide) (by decide) (by decide +kernel) (by decide +kernel)
     (by decide +kernel) (by decide +kernel)
 
-/-! ### the three classes of decoder output: witnesses on which the full statement fails (evaluated by the kernel) -/
+/-! ### the classes of decoder output: witnesses on which the full statement fails (evaluated by the kernel), and the
+former witness of the repaired class -/
 
 /-- hrv.time as a uint16 array, record.heart_rate, developer_data_id.developer_data_index, and the members of
 field_description the decoder and the validator read (as plain one-byte fields, like the standard factory) -/
@@ -491,6 +506,9 @@ def cfgArith : Cfg := { kfCfg false with D := Fit.ValidatorA.D }
 
 theorem wOpts_plain : PlainOpts wOpts := ⟨rfl, rfl, rfl, rfl⟩
 
+/-- hrv.time as the decoder hands it back to the encoder (`ofDecoded`): field 0 of message 78, uint16, array -/
+def kf78 (v : Value) : Field := ⟨some { num := 0, baseType := 0x84, nameKnown := true, array := true }, v, false⟩
+
 /-- what the full statement would demand of an input whose decoding, re-encoding and second decoding the kernel evaluated -/
 theorem reencode_fails_of (c : Cfg) (input : List Nat) (fits : List Fit.DecApi.Fit) (kept : List Message) (bytes : List Nat)
     (seq : List NMsg) (hdec : decodeChain wOpts input = (fits, none)) (hne : fits ≠ [])
@@ -511,19 +529,48 @@ theorem reencode_fails_of (c : Cfg) (input : List Nat) (fits : List Fit.DecApi.F
     rw [← h0, h3] at hbad
     simp at hbad
 
-/-- **KF-C01-undersized.** The byte 07 under a definition that gives hrv.time (a uint16 array) one byte decodes as the SCALAR
-`uint16 7` in an array field; the encoder accepts the decoded message and writes two bytes; decoding again returns
-`[]uint16{7}`: not the same message. -/
-theorem C01_e2e_reencode_fails_undersized : ¬ C01_e2e_reencode_full :=
-  reencode_fails_of (kfCfg false) inUndersized (decodeChain wOpts inUndersized).1
-    (encodeChain (kfCfg false) (backFiles (decodeChain wOpts inUndersized).1) 0).1.head!
-    (encodeChain (kfCfg false) (backFiles (decodeChain wOpts inUndersized).1) 0).2.1
-    [⟨78, [⟨0, 0x84, .sliceUint16 [7]⟩], []⟩]
-    (by decide +kernel) (by decide +kernel) (by decide +kernel) (kfCfg_ok false _ (by decide +kernel)) (by decide +kernel)
-    (by decide +kernel) (by decide +kernel) (by decide +kernel)
-
-example : decodeValues wOpts inUndersized = ([[⟨78, [⟨0, 0x84, .uint16 7⟩], []⟩]], none) ∧
-    kfUndersized ((decodeChain wOpts inUndersized).1.head!).msgs = true := by decide +kernel
+/-- **KF-C01-undersized, repaired.** On the pinned tree the byte 07 under a definition that gives hrv.time (a uint16 array)
+one byte decoded as the SCALAR `uint16 7` in an array field; the encoder accepted the decoded message and wrote two bytes;
+decoding again returned `[]uint16{7}`: not the same message (this theorem was
+`C01_e2e_reencode_fails_undersized : ¬ C01_e2e_reencode_full`). With `decodeFields` returning the one-element array for an
+array field (`Fit.DecApi.undersizedValue`) the same bytes decode as `[]uint16{7}`; the encoder accepts the decoded message as
+it is; the input meets every hypothesis of `C01_e2e_reencode` (which no longer names the class), and therefore (by that
+theorem, not by evaluation) encoding and decoding the decoded message again returns that very message. -/
+theorem C01_e2e_reencode_undersized_roundtrip :
+    decodeValues wOpts inUndersized = ([[⟨78, [⟨0, 0x84, .sliceUint16 [7]⟩], []⟩]], none) ∧
+    ∃ bytes, encodeChain (kfCfg false) (backFiles (decodeChain wOpts inUndersized).1) 0 =
+        ([[⟨78, [kf78 (.sliceUint16 [7])], []⟩]], bytes, none) ∧
+      decodeValues wOpts bytes = ([[⟨78, [⟨0, 0x84, .sliceUint16 [7]⟩], []⟩]], none) := by
+  refine ⟨by decide +kernel, (encodeChain (kfCfg false) (backFiles (decodeChain wOpts inUndersized).1) 0).2.1, by decide +kernel, ?_⟩
+  have henc : encodeChain (kfCfg false) (backFiles (decodeChain wOpts inUndersized).1) 0 =
+      ([[⟨78, [kf78 (.sliceUint16 [7])], []⟩]],
+        (encodeChain (kfCfg false) (backFiles (decodeChain wOpts inUndersized).1) 0).2.1, none) := by decide +kernel
+  obtain ⟨_, seqs, h1, h2⟩ := C01_e2e_reencode (kfCfg false) wOpts inUndersized (decodeChain wOpts inUndersized).1
+    (decodeChain wOpts inUndersized).2 _ _ rfl (by decide +kernel) henc (kfCfg_ok false _ (by decide +kernel)) (by decide +kernel)
+    wOpts_plain (by decide +kernel) (by decide +kernel) (by decide +kernel) (by decide +kernel) (by decide +kernel)
+  rw [h1]
+  cases h2 with
+  | cons hab htl =>
+    cases htl
+    rename_i ns
+    -- the only sequence matching the message literally (it has no timestamp: one allowed form) is the message itself
+    have : ns = [⟨78, [⟨0, 0x84, .sliceUint16 [7]⟩], []⟩] := by
+      cases ns with
+      | nil => revert hab; decide +kernel
+      | cons n rest =>
+        cases rest with
+        | nil =>
+          have hn : n = ⟨78, [⟨0, 0x84, .sliceUint16 [7]⟩], []⟩ := by
+            have : (msgVariants idValue false wFac 0 [] ⟨78, [kf78 (.sliceUint16 [7])], []⟩).contains n = true := by
+              simp only [seqMatches, Bool.and_eq_true] at hab
+              exact hab.1
+            have hv : msgVariants idValue false wFac 0 [] ⟨78, [kf78 (.sliceUint16 [7])], []⟩ =
+                [⟨78, [⟨0, 0x84, .sliceUint16 [7]⟩], []⟩] := by decide +kernel
+            rw [hv] at this
+            simpa using this
+          rw [hn]
+        | cons _ _ => simp [seqMatches] at hab
+    rw [this]
 
 /-- **KF-C01-strpieces.** The bytes "a\0\xff\0" in a string field without profile entry decode as `[]string{"a"}` (two
 terminated segments counted, one survives the UTF-8 cleaning); written again they are "a\0" and decode as the scalar
@@ -559,14 +606,20 @@ example : ((decodeChain wOpts inF64).1.head!).msgs.map proj ==
     ((encodeChain cfgArith (backFiles (decodeChain wOpts inF64).1) 0).1.head!.map literal).getLast? ==
       some ⟨20, [⟨3, 2, .uint8 70⟩], [⟨1, 0, .float64 0x4008000000000000⟩]⟩ := by decide +kernel
 
-/-- the witnesses lie in the classes `C01_e2e_reencode` excludes, one each, and in no other -/
+/-- non-vacuity of `C01_e2e_known_array_is_array`: the former witness — hrv.time, a known array field, one byte — -/
+example : (∀ b ∈ inUndersized, b < 256) ∧ facOKB wOpts.fac = true ∧
+    ((decodeChain wOpts inUndersized).1.map fun f => f.msgs.map fun m => m.fields.map fun d => (d.known, d.array, d.value)) =
+      [[[(true, true, .sliceUint16 [7])]]] := by decide +kernel
+
+/-- the witnesses lie in the classes `C01_e2e_reencode` excludes, one each, and in no other; the former witness of
+KF-C01-undersized lies in none -/
 example :
-    (kfUndersized ((decodeChain wOpts inUndersized).1.head!).msgs, kfPieces ((decodeChain wOpts inUndersized).1.head!).msgs,
-      kfF64Dev (kfCfg false).vo {} ((decodeChain wOpts inUndersized).1.head!).msgs) = (true, false, false) ∧
-    (kfUndersized ((decodeChain wOpts inPieces).1.head!).msgs, kfPieces ((decodeChain wOpts inPieces).1.head!).msgs,
-      kfF64Dev (kfCfg false).vo {} ((decodeChain wOpts inPieces).1.head!).msgs) = (false, true, false) ∧
-    (kfUndersized ((decodeChain wOpts inF64).1.head!).msgs, kfPieces ((decodeChain wOpts inF64).1.head!).msgs,
-      kfF64Dev cfgArith.vo {} ((decodeChain wOpts inF64).1.head!).msgs) = (false, false, true) := by decide +kernel
+    (kfPieces ((decodeChain wOpts inUndersized).1.head!).msgs,
+      kfF64Dev (kfCfg false).vo {} ((decodeChain wOpts inUndersized).1.head!).msgs) = (false, false) ∧
+    (kfPieces ((decodeChain wOpts inPieces).1.head!).msgs,
+      kfF64Dev (kfCfg false).vo {} ((decodeChain wOpts inPieces).1.head!).msgs) = (true, false) ∧
+    (kfPieces ((decodeChain wOpts inF64).1.head!).msgs,
+      kfF64Dev cfgArith.vo {} ((decodeChain wOpts inF64).1.head!).msgs) = (false, true) := by decide +kernel
 
 /-- non-vacuity of `C01_e2e_reencode`: the stream of `inPieces` with both segments valid ("a\0b\0"; checksum ignored) meets
 every hypothesis — it decodes, the encoder accepts what was decoded, no class — and indeed comes back as it was decoded:
@@ -575,7 +628,7 @@ def inGood : List Nat := inPieces.set 27 0x62
 def wOptsNoChk : Fit.DecApi.Opts := { wOpts with chk := false }
 example : (decodeChain wOptsNoChk inGood).2 = none ∧ (decodeChain wOptsNoChk inGood).1 ≠ [] ∧
     (encodeChain (kfCfg false) (backFiles (decodeChain wOptsNoChk inGood).1) 0).2.2 = none ∧
-    (∀ f ∈ (decodeChain wOptsNoChk inGood).1, kfF64Dev (kfCfg false).vo {} f.msgs = false ∧ kfUndersized f.msgs = false ∧ kfPieces f.msgs = false) ∧
+    (∀ f ∈ (decodeChain wOptsNoChk inGood).1, kfF64Dev (kfCfg false).vo {} f.msgs = false ∧ kfPieces f.msgs = false) ∧
     decodeValues wOptsNoChk inGood = ([[⟨65280, [⟨1, 0x07, .sliceString [[0x61], [0x62]]⟩, ⟨2, 0x02, .uint8 1⟩], []⟩]], none) ∧
     decodeValues wOptsNoChk (encodeChain (kfCfg false) (backFiles (decodeChain wOptsNoChk inGood).1) 0).2.1 =
       decodeValues wOptsNoChk inGood := by decide +kernel
